@@ -4,6 +4,7 @@ Property theorems are in `Props/C05.lean`.
 -/
 import PdfVerif.Model.Interp
 import PdfVerif.Spec.TextModel
+set_option linter.unusedSimpArgs false
 
 namespace PdfVerif.Interp
 open PdfVerif PdfVerif.Content PdfVerif.Gen.Utils PdfVerif.Gen.Interp PdfVerif.TextModel
@@ -598,4 +599,530 @@ theorem show_sim {env : Env} {m : MState} {s s' : SState} {t : Matrix × Matrix}
         · exact { hg with }
         · exact ⟨h1, rfl⟩
 
+/-! ### well-typed operators, case by case -/
+
+section
+variable (env : Env) (rfM : Form → Matrix → Res → List Glyph × Bool) (rfS : Form → GS → Res → Option (List Glyph))
+variable (m : MState) (s s' : SState) (args : List Obj) (gl : List Glyph)
+
+theorem nums_shape2 (hw : wellTyped [Ty.num, Ty.num] args = true) : ∃ a b, args = [Obj.num a, Obj.num b] := by
+  obtain ⟨qs, rfl, hl⟩ := wellTyped_nums args 2 (by simpa [List.replicate] using hw)
+  match qs, hl with
+  | [a, b], _ => exact ⟨a, b, rfl⟩
+
+theorem nums_shape3 (hw : wellTyped [Ty.num, Ty.num, Ty.num] args = true) :
+    ∃ a b c, args = [Obj.num a, Obj.num b, Obj.num c] := by
+  obtain ⟨qs, rfl, hl⟩ := wellTyped_nums args 3 (by simpa [List.replicate] using hw)
+  match qs, hl with
+  | [a, b, c], _ => exact ⟨a, b, c, rfl⟩
+
+theorem nums_shape4 (hw : wellTyped [Ty.num, Ty.num, Ty.num, Ty.num] args = true) :
+    ∃ a b c d, args = [Obj.num a, Obj.num b, Obj.num c, Obj.num d] := by
+  obtain ⟨qs, rfl, hl⟩ := wellTyped_nums args 4 (by simpa [List.replicate] using hw)
+  match qs, hl with
+  | [a, b, c, d], _ => exact ⟨a, b, c, d, rfl⟩
+
+theorem nums_shape6 (hw : wellTyped [Ty.num, Ty.num, Ty.num, Ty.num, Ty.num, Ty.num] args = true) :
+    ∃ a b c d e f, args = [Obj.num a, Obj.num b, Obj.num c, Obj.num d, Obj.num e, Obj.num f] := by
+  obtain ⟨qs, rfl, hl⟩ := wellTyped_nums args 6 (by simpa [List.replicate] using hw)
+  match qs, hl with
+  | [a, b, c, d, e, f], _ => exact ⟨a, b, c, d, e, f, rfl⟩
+
+theorem nil_shape (hw : wellTyped [] args = true) : args = [] := by
+  cases args with
+  | nil => rfl
+  | cons a r => simp [wellTyped] at hw
+
+theorem sim_q (hR : R env m s) (hw : wellTyped [] args = true) (happ : apply env rfS s .q args = some (s', gl)) :
+    R env (call env rfM m .q args).1 s' ∧ (call env rfM m .q args).2 = gl := by
+  have := nil_shape args hw; subst this
+  simp only [apply, Option.some.injEq, Prod.mk.injEq] at happ
+  obtain ⟨rfl, rfl⟩ := happ
+  simp only [call]
+  refine ⟨⟨hR.g, hR.dctm, ?_, hR.txt, hR.res, hR.args, hR.fuel⟩, by first | rfl | trivial⟩
+  exact ⟨hR.g, hR.stack⟩
+
+theorem sim_Q (hR : R env m s) (hall : allowed s.txt.isSome .Q = true) (hw : wellTyped [] args = true)
+    (happ : apply env rfS s .Q args = some (s', gl)) :
+    R env (call env rfM m .Q args).1 s' ∧ (call env rfM m .Q args).2 = gl := by
+  have := nil_shape args hw; subst this
+  have htxt : s.txt = none := by
+    cases h : s.txt with
+    | none => rfl
+    | some t => rw [h] at hall; simp [allowed, isTextState, isColour] at hall
+  simp only [apply] at happ
+  have hst := hR.stack
+  cases hss : s.stack with
+  | nil => rw [hss] at happ; simp at happ
+  | cons g rest =>
+    rw [hss] at happ hst
+    simp only [Option.some.injEq, Prod.mk.injEq] at happ
+    obtain ⟨rfl, rfl⟩ := happ
+    cases hgs : m.gstack with
+    | nil => rw [hgs] at hst; cases m.csstack <;> simp [StackRel] at hst
+    | cons sv grest =>
+      cases hcs : m.csstack with
+      | nil => rw [hgs, hcs] at hst; simp [StackRel] at hst
+      | cons c crest =>
+        rw [hgs, hcs] at hst
+        simp only [StackRel] at hst
+        simp only [call, hgs, hcs]
+        refine ⟨⟨hst.1, rfl, hst.2, ?_, hR.res, hR.args, hR.fuel⟩, by first | rfl | trivial⟩
+        simp only [htxt, TxtRel]
+
+theorem sim_cm (hR : R env m s) (hw : wellTyped [Ty.num, Ty.num, Ty.num, Ty.num, Ty.num, Ty.num] args = true)
+    (happ : apply env rfS s .cm args = some (s', gl)) :
+    R env (call env rfM m .cm args).1 s' ∧ (call env rfM m .cm args).2 = gl := by
+  obtain ⟨a, b, c, d, e, f, rfl⟩ := nums_shape6 args hw
+  simp only [apply, Option.some.injEq, Prod.mk.injEq] at happ
+  obtain ⟨rfl, rfl⟩ := happ
+  simp only [call, safeFloats, safeFloat]
+  refine ⟨⟨?_, rfl, hR.stack, hR.txt, hR.res, hR.args, hR.fuel⟩, by first | rfl | trivial⟩
+  exact { hR.g with ctm := by simp [hR.g.ctm] }
+
+theorem sim_BT (hR : R env m s) (hw : wellTyped [] args = true) (happ : apply env rfS s .BT args = some (s', gl)) :
+    R env (call env rfM m .BT args).1 s' ∧ (call env rfM m .BT args).2 = gl := by
+  have := nil_shape args hw; subst this
+  simp only [apply, Option.some.injEq, Prod.mk.injEq] at happ
+  obtain ⟨rfl, rfl⟩ := happ
+  simp only [call]
+  refine ⟨⟨?_, hR.dctm, hR.stack, ?_, hR.res, hR.args, hR.fuel⟩, by first | rfl | trivial⟩
+  · exact { hR.g with }
+  · simp only [TxtRel]
+    exact ⟨by first | rfl | trivial, (translate_zero _).symm⟩
+
+theorem sim_ET (hR : R env m s) (hw : wellTyped [] args = true) (happ : apply env rfS s .ET args = some (s', gl)) :
+    R env (call env rfM m .ET args).1 s' ∧ (call env rfM m .ET args).2 = gl := by
+  have := nil_shape args hw; subst this
+  simp only [apply, Option.some.injEq, Prod.mk.injEq] at happ
+  obtain ⟨rfl, rfl⟩ := happ
+  simp only [call]
+  exact ⟨⟨hR.g, hR.dctm, hR.stack, trivial, hR.res, hR.args, hR.fuel⟩, by first | rfl | trivial⟩
+
+theorem sim_Tr (hR : R env m s) (hw : wellTyped [Ty.num] args = true) (happ : apply env rfS s .Tr args = some (s', gl)) :
+    R env (call env rfM m .Tr args).1 s' ∧ (call env rfM m .Tr args).2 = gl := by
+  obtain ⟨v, rfl⟩ := one_num args hw
+  simp only [apply] at happ
+  split at happ
+  · simp only [Option.some.injEq, Prod.mk.injEq] at happ
+    obtain ⟨rfl, rfl⟩ := happ
+    simp only [call, safeInt]
+    refine ⟨⟨?_, hR.dctm, hR.stack, TxtRel_congr rfl rfl hR.txt, hR.res, hR.args, hR.fuel⟩, by first | rfl | trivial⟩
+    exact { hR.g with }
+  · simp at happ
+
+theorem shape_name_num (hw : wellTyped [Ty.name, Ty.num] args = true) : ∃ n sz, args = [Obj.name n, Obj.num sz] := by
+  rcases args with _ | ⟨a, _ | ⟨b, _ | ⟨c, r⟩⟩⟩ <;> simp [wellTyped] at hw
+  cases a <;> cases b <;> simp [Ty.ok] at hw
+  exact ⟨_, _, rfl⟩
+
+theorem shape_name (hw : wellTyped [Ty.name] args = true) : ∃ n, args = [Obj.name n] := by
+  rcases args with _ | ⟨a, _ | ⟨b, r⟩⟩ <;> simp [wellTyped] at hw
+  cases a <;> simp [Ty.ok] at hw
+  exact ⟨_, rfl⟩
+
+theorem shape_str (hw : wellTyped [Ty.str] args = true) : ∃ c, args = [Obj.str c] := by
+  rcases args with _ | ⟨a, _ | ⟨b, r⟩⟩ <;> simp [wellTyped] at hw
+  cases a <;> simp [Ty.ok] at hw
+  exact ⟨_, rfl⟩
+
+theorem shape_arr (hw : wellTyped [Ty.arr] args = true) : ∃ c, args = [Obj.arr c] := by
+  rcases args with _ | ⟨a, _ | ⟨b, r⟩⟩ <;> simp [wellTyped] at hw
+  cases a <;> simp [Ty.ok] at hw
+  exact ⟨_, rfl⟩
+
+theorem shape_num_num_str (hw : wellTyped [Ty.num, Ty.num, Ty.str] args = true) :
+    ∃ a b c, args = [Obj.num a, Obj.num b, Obj.str c] := by
+  rcases args with _ | ⟨a, _ | ⟨b, _ | ⟨c, _ | ⟨d, r⟩⟩⟩⟩ <;> simp [wellTyped] at hw
+  cases a <;> cases b <;> cases c <;> simp [Ty.ok] at hw
+  exact ⟨_, _, _, rfl⟩
+
+theorem sim_Tf (hR : R env m s) (hw : wellTyped [Ty.name, Ty.num] args = true)
+    (happ : apply env rfS s .Tf args = some (s', gl)) :
+    R env (call env rfM m .Tf args).1 s' ∧ (call env rfM m .Tf args).2 = gl := by
+  obtain ⟨n, sz, rfl⟩ := shape_name_num args hw
+  simp only [apply] at happ
+  split at happ
+  · simp at happ
+  · rename_i i hi
+    split at happ
+    · rename_i hlt
+      simp only [Option.some.injEq, Prod.mk.injEq] at happ
+      obtain ⟨rfl, rfl⟩ := happ
+      have hi' : lookup n m.res.fonts = some i := by rw [hR.res]; exact hi
+      simp only [call, safeFloats, safeFloat, hi']
+      refine ⟨⟨?_, hR.dctm, hR.stack, TxtRel_congr rfl rfl hR.txt, hR.res, hR.args, hR.fuel⟩, by first | rfl | trivial⟩
+      exact { hR.g with tfs := rfl, font := ⟨rfl, hlt⟩ }
+    · simp at happ
+
+theorem sim_Td (hR : R env m s) (hw : wellTyped [Ty.num, Ty.num] args = true)
+    (happ : apply env rfS s .Td args = some (s', gl)) :
+    R env (call env rfM m .Td args).1 s' ∧ (call env rfM m .Td args).2 = gl := by
+  obtain ⟨tx, ty, rfl⟩ := nums_shape2 args hw
+  simp only [apply] at happ
+  split at happ
+  · simp at happ
+  · rename_i t ht
+    simp only [Option.some.injEq, Prod.mk.injEq] at happ
+    obtain ⟨rfl, rfl⟩ := happ
+    have htx := hR.txt
+    rw [ht] at htx
+    obtain ⟨tm, tlm⟩ := t
+    simp only [TxtRel] at htx
+    simp only [call, safeFloats, safeFloat]
+    refine ⟨⟨?_, hR.dctm, hR.stack, ?_, hR.res, hR.args, hR.fuel⟩, by first | rfl | trivial⟩
+    · exact { hR.g with }
+    · simp only [TxtRel, nextLine]
+      rw [translate_zero, htx.1, td_matrix]
+      exact ⟨rfl, rfl⟩
+
+theorem sim_TD (hR : R env m s) (hw : wellTyped [Ty.num, Ty.num] args = true)
+    (happ : apply env rfS s .TD args = some (s', gl)) :
+    R env (call env rfM m .TD args).1 s' ∧ (call env rfM m .TD args).2 = gl := by
+  obtain ⟨tx, ty, rfl⟩ := nums_shape2 args hw
+  simp only [apply] at happ
+  split at happ
+  · simp at happ
+  · rename_i t ht
+    simp only [Option.some.injEq, Prod.mk.injEq] at happ
+    obtain ⟨rfl, rfl⟩ := happ
+    have htx := hR.txt
+    rw [ht] at htx
+    obtain ⟨tm, tlm⟩ := t
+    simp only [TxtRel] at htx
+    simp only [call, safeFloats, safeFloat]
+    refine ⟨⟨?_, hR.dctm, hR.stack, ?_, hR.res, hR.args, hR.fuel⟩, by first | rfl | trivial⟩
+    · exact { hR.g with tl := by simp [tD_leading] }
+    · simp only [TxtRel, nextLine]
+      rw [translate_zero, htx.1, tD_matrix]
+      exact ⟨rfl, rfl⟩
+
+theorem sim_Tm (hR : R env m s) (hw : wellTyped [Ty.num, Ty.num, Ty.num, Ty.num, Ty.num, Ty.num] args = true)
+    (happ : apply env rfS s .Tm args = some (s', gl)) :
+    R env (call env rfM m .Tm args).1 s' ∧ (call env rfM m .Tm args).2 = gl := by
+  obtain ⟨a, b, c, d, e, f, rfl⟩ := nums_shape6 args hw
+  simp only [apply] at happ
+  split at happ
+  · simp at happ
+  · simp only [Option.some.injEq, Prod.mk.injEq] at happ
+    obtain ⟨rfl, rfl⟩ := happ
+    simp only [call, safeFloats, safeFloat]
+    refine ⟨⟨?_, hR.dctm, hR.stack, ?_, hR.res, hR.args, hR.fuel⟩, by first | rfl | trivial⟩
+    · exact { hR.g with }
+    · simp only [TxtRel]
+      exact ⟨by first | rfl | trivial, (translate_zero _).symm⟩
+
+theorem sim_Tstar (hR : R env m s) (hw : wellTyped [] args = true)
+    (happ : apply env rfS s .Tstar args = some (s', gl)) :
+    R env (call env rfM m .Tstar args).1 s' ∧ (call env rfM m .Tstar args).2 = gl := by
+  have := nil_shape args hw; subst this
+  simp only [apply] at happ
+  split at happ
+  · simp at happ
+  · rename_i t ht
+    simp only [Option.some.injEq, Prod.mk.injEq] at happ
+    obtain ⟨rfl, rfl⟩ := happ
+    simp only [call]
+    exact ⟨tstar_sim hR ht, by first | rfl | trivial⟩
+
+theorem sim_Tj (hR : R env m s) (hw : wellTyped [Ty.str] args = true)
+    (happ : apply env rfS s .Tj args = some (s', gl)) :
+    R env (call env rfM m .Tj args).1 s' ∧ (call env rfM m .Tj args).2 = gl := by
+  obtain ⟨codes, rfl⟩ := shape_str args hw
+  simp only [apply] at happ
+  split at happ
+  · simp at happ
+  · rename_i t ht
+    simp only [call]
+    exact show_sim hR ht happ
+
+theorem sim_TJ (hR : R env m s) (hw : wellTyped [Ty.arr] args = true)
+    (happ : apply env rfS s .TJ args = some (s', gl)) :
+    R env (call env rfM m .TJ args).1 s' ∧ (call env rfM m .TJ args).2 = gl := by
+  obtain ⟨es, rfl⟩ := shape_arr args hw
+  simp only [apply] at happ
+  split at happ
+  · simp at happ
+  · rename_i t ht
+    simp only [call]
+    exact show_sim hR ht happ
+
+theorem sim_quote (hR : R env m s) (hw : wellTyped [Ty.str] args = true)
+    (happ : apply env rfS s .quote args = some (s', gl)) :
+    R env (call env rfM m .quote args).1 s' ∧ (call env rfM m .quote args).2 = gl := by
+  obtain ⟨codes, rfl⟩ := shape_str args hw
+  simp only [apply] at happ
+  split at happ
+  · simp at happ
+  · rename_i t ht
+    simp only [call]
+    have h1 := tstar_sim hR ht
+    exact show_sim (s := { s with txt := some (nextLine t 0 (-s.gs.Tl)) }) h1 rfl happ
+
+theorem sim_dquote (hR : R env m s) (hw : wellTyped [Ty.num, Ty.num, Ty.str] args = true)
+    (happ : apply env rfS s .dquote args = some (s', gl)) :
+    R env (call env rfM m .dquote args).1 s' ∧ (call env rfM m .dquote args).2 = gl := by
+  obtain ⟨aw, ac, codes, rfl⟩ := shape_num_num_str args hw
+  simp only [apply] at happ
+  split at happ
+  · simp at happ
+  · rename_i t ht
+    simp only [call, safeFloats, safeFloat]
+    have hR1 : R env { m with ts := { m.ts with wordspace := aw, charspace := ac } }
+        { s with gs := { s.gs with Tw := aw, Tc := ac } } :=
+      ⟨{ hR.g with tw := rfl, tc := rfl }, hR.dctm, hR.stack, TxtRel_congr rfl rfl hR.txt, hR.res, hR.args, hR.fuel⟩
+    have h1 := tstar_sim hR1 ht
+    exact show_sim h1 rfl happ
+
+theorem csLookup_gray : csLookup "DeviceGray" = some ("DeviceGray", 1) := by decide
+theorem csLookup_rgb : csLookup "DeviceRGB" = some ("DeviceRGB", 3) := by decide
+theorem csLookup_cmyk : csLookup "DeviceCMYK" = some ("DeviceCMYK", 4) := by decide
+
+theorem sim_g (hR : R env m s) (hw : wellTyped [Ty.num] args = true)
+    (happ : apply env rfS s .g args = some (s', gl)) :
+    R env (call env rfM m .g args).1 s' ∧ (call env rfM m .g args).2 = gl := by
+  obtain ⟨v, rfl⟩ := one_num args hw
+  simp only [apply] at happ
+  split at happ
+  · simp only [Option.some.injEq, Prod.mk.injEq] at happ
+    obtain ⟨rfl, rfl⟩ := happ
+    simp only [call, safeFloats, safeFloat, csLookup_gray, Option.getD_some]
+    refine ⟨⟨?_, hR.dctm, hR.stack, hR.txt, hR.res, hR.args, hR.fuel⟩, by first | rfl | trivial⟩
+    exact { hR.g with fill := rfl, ncs := rfl, fillN := Or.inl rfl }
+  · simp at happ
+
+theorem sim_G (hR : R env m s) (hw : wellTyped [Ty.num] args = true)
+    (happ : apply env rfS s .G args = some (s', gl)) :
+    R env (call env rfM m .G args).1 s' ∧ (call env rfM m .G args).2 = gl := by
+  obtain ⟨v, rfl⟩ := one_num args hw
+  simp only [apply] at happ
+  split at happ
+  · simp only [Option.some.injEq, Prod.mk.injEq] at happ
+    obtain ⟨rfl, rfl⟩ := happ
+    simp only [call, safeFloats, safeFloat, csLookup_gray, Option.getD_some]
+    refine ⟨⟨?_, hR.dctm, hR.stack, hR.txt, hR.res, hR.args, hR.fuel⟩, by first | rfl | trivial⟩
+    exact { hR.g with stroke := rfl, scs := rfl, strokeN := Or.inl rfl }
+  · simp at happ
+
+theorem sim_rg (hR : R env m s) (hw : wellTyped [Ty.num, Ty.num, Ty.num] args = true)
+    (happ : apply env rfS s .rg args = some (s', gl)) :
+    R env (call env rfM m .rg args).1 s' ∧ (call env rfM m .rg args).2 = gl := by
+  obtain ⟨a, b, c, rfl⟩ := nums_shape3 args hw
+  simp only [apply] at happ
+  split at happ
+  · simp only [Option.some.injEq, Prod.mk.injEq] at happ
+    obtain ⟨rfl, rfl⟩ := happ
+    simp only [call, safeFloats, safeFloat, csLookup_rgb, Option.getD_some]
+    refine ⟨⟨?_, hR.dctm, hR.stack, hR.txt, hR.res, hR.args, hR.fuel⟩, by first | rfl | trivial⟩
+    exact { hR.g with fill := rfl, ncs := rfl, fillN := Or.inr (Or.inl rfl) }
+  · simp at happ
+
+theorem sim_RG (hR : R env m s) (hw : wellTyped [Ty.num, Ty.num, Ty.num] args = true)
+    (happ : apply env rfS s .RG args = some (s', gl)) :
+    R env (call env rfM m .RG args).1 s' ∧ (call env rfM m .RG args).2 = gl := by
+  obtain ⟨a, b, c, rfl⟩ := nums_shape3 args hw
+  simp only [apply] at happ
+  split at happ
+  · simp only [Option.some.injEq, Prod.mk.injEq] at happ
+    obtain ⟨rfl, rfl⟩ := happ
+    simp only [call, safeFloats, safeFloat, csLookup_rgb, Option.getD_some]
+    refine ⟨⟨?_, hR.dctm, hR.stack, hR.txt, hR.res, hR.args, hR.fuel⟩, by first | rfl | trivial⟩
+    exact { hR.g with stroke := rfl, scs := rfl, strokeN := Or.inr (Or.inl rfl) }
+  · simp at happ
+
+theorem sim_k (hR : R env m s) (hw : wellTyped [Ty.num, Ty.num, Ty.num, Ty.num] args = true)
+    (happ : apply env rfS s .k args = some (s', gl)) :
+    R env (call env rfM m .k args).1 s' ∧ (call env rfM m .k args).2 = gl := by
+  obtain ⟨a, b, c, d, rfl⟩ := nums_shape4 args hw
+  simp only [apply] at happ
+  split at happ
+  · simp only [Option.some.injEq, Prod.mk.injEq] at happ
+    obtain ⟨rfl, rfl⟩ := happ
+    simp only [call, safeFloats, safeFloat, csLookup_cmyk, Option.getD_some]
+    refine ⟨⟨?_, hR.dctm, hR.stack, hR.txt, hR.res, hR.args, hR.fuel⟩, by first | rfl | trivial⟩
+    exact { hR.g with fill := rfl, ncs := rfl, fillN := Or.inr (Or.inr rfl) }
+  · simp at happ
+
+theorem sim_K (hR : R env m s) (hw : wellTyped [Ty.num, Ty.num, Ty.num, Ty.num] args = true)
+    (happ : apply env rfS s .K args = some (s', gl)) :
+    R env (call env rfM m .K args).1 s' ∧ (call env rfM m .K args).2 = gl := by
+  obtain ⟨a, b, c, d, rfl⟩ := nums_shape4 args hw
+  simp only [apply] at happ
+  split at happ
+  · simp only [Option.some.injEq, Prod.mk.injEq] at happ
+    obtain ⟨rfl, rfl⟩ := happ
+    simp only [call, safeFloats, safeFloat, csLookup_cmyk, Option.getD_some]
+    refine ⟨⟨?_, hR.dctm, hR.stack, hR.txt, hR.res, hR.args, hR.fuel⟩, by first | rfl | trivial⟩
+    exact { hR.g with stroke := rfl, scs := rfl, strokeN := Or.inr (Or.inr rfl) }
+  · simp at happ
+
+/-- The device colour spaces in pdfminer's table: components and initial colour as Table 74 says. -/
+theorem deviceCS_model (n : String) (k : Nat) (h : deviceCS n = some k) :
+    csLookup n = some (n, k) ∧ initialColor (n, k) = some (initialColour k) ∧ (k = 1 ∨ k = 3 ∨ k = 4) := by
+  unfold deviceCS at h
+  split at h <;> simp only [Option.some.injEq, reduceCtorEq] at h <;> subst h
+  · exact ⟨by decide, by decide, by decide⟩
+  · exact ⟨by decide, by decide, by decide⟩
+  · exact ⟨by decide, by decide, by decide⟩
+
+theorem sim_cs (hR : R env m s) (hw : wellTyped [Ty.name] args = true)
+    (happ : apply env rfS s .cs args = some (s', gl)) :
+    R env (call env rfM m .cs args).1 s' ∧ (call env rfM m .cs args).2 = gl := by
+  obtain ⟨n, rfl⟩ := shape_name args hw
+  simp only [apply] at happ
+  split at happ
+  · simp at happ
+  · rename_i k hk
+    obtain ⟨h1, h2, h3⟩ := deviceCS_model n k hk
+    simp only [Option.some.injEq, Prod.mk.injEq] at happ
+    obtain ⟨rfl, rfl⟩ := happ
+    simp only [call, h1, h2]
+    refine ⟨⟨?_, hR.dctm, hR.stack, hR.txt, hR.res, hR.args, hR.fuel⟩, by first | rfl | trivial⟩
+    exact { hR.g with fill := rfl, ncs := rfl, fillN := h3 }
+
+theorem sim_CS (hR : R env m s) (hw : wellTyped [Ty.name] args = true)
+    (happ : apply env rfS s .CS args = some (s', gl)) :
+    R env (call env rfM m .CS args).1 s' ∧ (call env rfM m .CS args).2 = gl := by
+  obtain ⟨n, rfl⟩ := shape_name args hw
+  simp only [apply] at happ
+  split at happ
+  · simp at happ
+  · rename_i k hk
+    obtain ⟨h1, h2, h3⟩ := deviceCS_model n k hk
+    simp only [Option.some.injEq, Prod.mk.injEq] at happ
+    obtain ⟨rfl, rfl⟩ := happ
+    simp only [call, h1, h2]
+    refine ⟨⟨?_, hR.dctm, hR.stack, hR.txt, hR.res, hR.args, hR.fuel⟩, by first | rfl | trivial⟩
+    exact { hR.g with stroke := rfl, scs := rfl, strokeN := h3 }
+
+/-- `Do` of a form XObject: the caller's state afterwards is what it was before. -/
+theorem sim_Do (hrf : Agree rfM rfS) (hR : R env m s) (hw : wellTyped [Ty.name] args = true)
+    (happ : apply env rfS s .Do args = some (s', gl)) :
+    R env (call env rfM m .Do args).1 s' ∧ (call env rfM m .Do args).2 = gl := by
+  obtain ⟨n, rfl⟩ := shape_name args hw
+  simp only [apply] at happ
+  split at happ
+  · simp at happ
+  · rename_i i hi
+    split at happ
+    · simp at happ
+    · rename_i fm hfm
+      split at happ
+      · simp at happ
+      · rename_i gl' hrun
+        simp only [Option.some.injEq, Prod.mk.injEq] at happ
+        obtain ⟨rfl, rfl⟩ := happ
+        have hi' : lookup n m.res.xobjs = some i := by rw [hR.res]; exact hi
+        have hm := hrf fm _ _ _ hrun
+        simp only at hm
+        rw [← hR.g.ctm, ← hR.res] at hm
+        simp only [call, hi', hfm, hm]
+        refine ⟨⟨hR.g, rfl, hR.stack, hR.txt, hR.res, hR.args, ?_⟩, by first | rfl | trivial⟩
+        simp [hR.fuel]
+
+theorem numsOf_nums (qs : List Rat) : numsOf (qs.map Obj.num) = qs := by
+  induction qs with
+  | nil => rfl
+  | cons q r ih => simp [numsOf, ih]
+
+theorem doSetColor_welltyped (stroke : Bool) (n : Nat) (qs : List Rat)
+    (hn : (if stroke then m.scs.2 else m.ncs.2) = n) (h134 : n = 1 ∨ n = 3 ∨ n = 4) (hl : qs.length = n)
+    (hargs : m.argstack = []) :
+    doSetColor { m with argstack := qs.map Obj.num } stroke =
+      if stroke then { m with scolor := some qs } else { m with ncolor := some qs } := by
+  unfold doSetColor
+  simp only [hn]
+  have hnl : ¬ ((qs.map Obj.num).length < n) := by simp [hl]
+  simp only [h134, true_and, hnl, if_false, if_true]
+  rw [pop_short n _ (by simp [hl]), safeFloats_nums]
+  cases stroke <;> simp <;> cases m <;> simp_all
+
+/-- One well-typed instruction of the domain: `execute` and the text model stay related and
+report the same glyphs. -/
+theorem exec_sim (hrf : Agree rfM rfS) (op : Op) (tys : List Ty) (hR : R env m s)
+    (hsig : sig s.gs op = some tys) (hall : allowed s.txt.isSome op = true) (hw : wellTyped tys args = true)
+    (happ : apply env rfS s op args = some (s', gl)) :
+    R env (execTok env rfM { m with argstack := m.argstack ++ pushed args } (.op op)).1 s' ∧
+      (execTok env rfM { m with argstack := m.argstack ++ pushed args } (.op op)).2 = gl := by
+  obtain ⟨hpa, hlen⟩ := wellTyped_pushed tys args hw
+  rw [hR.args, List.nil_append, hpa]
+  by_cases hdyn : op ≠ .sc ∧ op ≠ .scn ∧ op ≠ .SC ∧ op ≠ .SCN
+  · have ha := arity_sig s.gs op tys hsig hdyn
+    have hcall : execTok env rfM { m with argstack := args } (.op op) = call env rfM m op args := by
+      cases hk : tys.length with
+      | zero =>
+        have : args = [] := by
+          cases args with
+          | nil => rfl
+          | cons a r => simp [hk] at hlen
+        subst this
+        rw [hk] at ha
+        rw [mstate_args_nil m hR.args, execTok_zero env rfM m op ha]
+      | succ n =>
+        rw [hk] at ha
+        rw [execTok_exact env rfM m op n args ha (by omega), mstate_args_nil m hR.args]
+    rw [hcall]
+    cases op <;> simp only [sig, Option.some.injEq, reduceCtorEq] at hsig <;> try subst hsig
+    case q => exact sim_q env rfM rfS m s s' args gl hR hw happ
+    case Q => exact sim_Q env rfM rfS m s s' args gl hR hall hw happ
+    case cm => exact sim_cm env rfM rfS m s s' args gl hR hw happ
+    case BT => exact sim_BT env rfM rfS m s s' args gl hR hw happ
+    case ET => exact sim_ET env rfM rfS m s s' args gl hR hw happ
+    case Tc => exact call_sim_setters env rfM rfS m s s' .Tc args gl hR (by simp) hw happ
+    case Tw => exact call_sim_setters env rfM rfS m s s' .Tw args gl hR (by simp) hw happ
+    case Tz => exact call_sim_setters env rfM rfS m s s' .Tz args gl hR (by simp) hw happ
+    case TL => exact call_sim_setters env rfM rfS m s s' .TL args gl hR (by simp) hw happ
+    case Ts => exact call_sim_setters env rfM rfS m s s' .Ts args gl hR (by simp) hw happ
+    case Tr => exact sim_Tr env rfM rfS m s s' args gl hR hw happ
+    case Tf => exact sim_Tf env rfM rfS m s s' args gl hR hw happ
+    case Td => exact sim_Td env rfM rfS m s s' args gl hR hw happ
+    case TD => exact sim_TD env rfM rfS m s s' args gl hR hw happ
+    case Tm => exact sim_Tm env rfM rfS m s s' args gl hR hw happ
+    case Tstar => exact sim_Tstar env rfM rfS m s s' args gl hR hw happ
+    case Tj => exact sim_Tj env rfM rfS m s s' args gl hR hw happ
+    case TJ => exact sim_TJ env rfM rfS m s s' args gl hR hw happ
+    case quote => exact sim_quote env rfM rfS m s s' args gl hR hw happ
+    case dquote => exact sim_dquote env rfM rfS m s s' args gl hR hw happ
+    case g => exact sim_g env rfM rfS m s s' args gl hR hw happ
+    case G => exact sim_G env rfM rfS m s s' args gl hR hw happ
+    case rg => exact sim_rg env rfM rfS m s s' args gl hR hw happ
+    case RG => exact sim_RG env rfM rfS m s s' args gl hR hw happ
+    case k => exact sim_k env rfM rfS m s s' args gl hR hw happ
+    case K => exact sim_K env rfM rfS m s s' args gl hR hw happ
+    case cs => exact sim_cs env rfM rfS m s s' args gl hR hw happ
+    case CS => exact sim_CS env rfM rfS m s s' args gl hR hw happ
+    case Do => exact sim_Do env rfM rfS m s s' args gl hrf hR hw happ
+    all_goals (simp at hdyn)
+  · have hop : op = .sc ∨ op = .scn ∨ op = .SC ∨ op = .SCN := by
+      by_cases h1 : op = .sc
+      · exact Or.inl h1
+      · by_cases h2 : op = .scn
+        · exact Or.inr (Or.inl h2)
+        · by_cases h3 : op = .SC
+          · exact Or.inr (Or.inr (Or.inl h3))
+          · by_cases h4 : op = .SCN
+            · exact Or.inr (Or.inr (Or.inr h4))
+            · exact absurd ⟨h1, h2, h3, h4⟩ hdyn
+    have hg := hR.g
+    rcases hop with rfl | rfl | rfl | rfl <;>
+      simp only [sig, Option.some.injEq] at hsig <;> subst hsig <;>
+      obtain ⟨qs, rfl, hl⟩ := wellTyped_nums args _ hw <;>
+      rw [execTok_zero env rfM _ _ (by decide)] <;> simp only [call] <;>
+      simp only [apply, numsOf_nums] at happ <;>
+      split at happ <;> simp only [Option.some.injEq, Prod.mk.injEq, reduceCtorEq] at happ <;>
+      obtain ⟨rfl, rfl⟩ := happ
+    · rw [doSetColor_welltyped m false s.gs.fillN qs (by simpa using hg.ncs) hg.fillN hl hR.args]
+      simp only [Bool.false_eq_true, if_false, if_true]
+      exact ⟨⟨{ hg with fill := rfl }, hR.dctm, hR.stack, hR.txt, hR.res, hR.args, hR.fuel⟩, by first | rfl | trivial⟩
+    · rw [doSetColor_welltyped m false s.gs.fillN qs (by simpa using hg.ncs) hg.fillN hl hR.args]
+      simp only [Bool.false_eq_true, if_false, if_true]
+      exact ⟨⟨{ hg with fill := rfl }, hR.dctm, hR.stack, hR.txt, hR.res, hR.args, hR.fuel⟩, by first | rfl | trivial⟩
+    · rw [doSetColor_welltyped m true s.gs.strokeN qs (by simpa using hg.scs) hg.strokeN hl hR.args]
+      simp only [Bool.false_eq_true, if_false, if_true]
+      exact ⟨⟨{ hg with stroke := rfl }, hR.dctm, hR.stack, hR.txt, hR.res, hR.args, hR.fuel⟩, by first | rfl | trivial⟩
+    · rw [doSetColor_welltyped m true s.gs.strokeN qs (by simpa using hg.scs) hg.strokeN hl hR.args]
+      simp only [Bool.false_eq_true, if_false, if_true]
+      exact ⟨⟨{ hg with stroke := rfl }, hR.dctm, hR.stack, hR.txt, hR.res, hR.args, hR.fuel⟩, by first | rfl | trivial⟩
+
+end
 end PdfVerif.Interp
